@@ -58,7 +58,17 @@ EDITS = [
     ('helpers.py', '        if degree < 2:\n            raise GeomdlException("Input spline geometry must have degree > 1")',
      '        if degree < 1:\n            raise GeomdlException("Input spline geometry must have degree > 1")', ['helpers.degree_reduction'], 'caught'),
     ('linalg.py', '    return float(k_fact / (k_i_fact * i_fact))', '    return float(k_fact / (k_i_fact + i_fact))', ['linalg.binomial_coefficient'], 'caught'),
+    ('helpers.py', '        pts_red[i] = [(c1 - (alpha * c2)) / (1 - alpha) for c1, c2 in zip(ctrlpts[i], pts_red[i - 1])]',
+     '        pts_red[i] = [(c1 - (alpha * c2)) / (1 + alpha) for c1, c2 in zip(ctrlpts[i], pts_red[i - 1])]',
+     ['helpers.degree_reduction#inverts_elevation'], 'caught'),
+    ('helpers.py', '        pts_red[r] = [0.5 * (pl + pr) for pl, pr in zip(left, right)]', '        pts_red[r] = [0.5 * (pl - pr) for pl, pr in zip(left, right)]',
+     ['helpers.degree_reduction#inverts_elevation'], 'caught'),
+    ('helpers.py', '            coeff = linalg.binomial_coefficient(degree, j) * linalg.binomial_coefficient(num, (i - j))',
+     '            coeff = linalg.binomial_coefficient(degree, j) * linalg.binomial_coefficient(num, (i - j + 1))',
+     ['helpers.degree_elevation#by_one'], 'caught'),
     # ---- harmless
+    ('helpers.py', '        pts_red[r] = [0.5 * (pl + pr) for pl, pr in zip(left, right)]', '        pts_red[r] = [(pr + pl) * 0.5 for pl, pr in zip(left, right)]',
+     ['helpers.degree_reduction#inverts_elevation'], 'quiet'),
     ('helpers.py', '        start = max(0, (i - num))\n        end = min(degree, i)', '        end = min(i, degree)\n        start = max((i - num), 0)',
      ['helpers.degree_elevation'], 'quiet'),
     ('fitting.py', '    d = sum(cds[1:-1])', '    d = sum(cds[1:num_points])', ['fitting.compute_params_curve'], 'quiet'),
